@@ -442,8 +442,16 @@ func (c *Controller) LoadMinimumEvidenceHeight(rootChainId, rootHeight uint64) (
 
 // LoadMaxBlockSize() gets the max block size from the state
 func (c *Controller) LoadMaxBlockSize() int {
-	// load the maximum block size from the nested chain FSM
-	params, _ := c.FSM.GetParamsCons()
+	// load the maximum block size from the last committed state: the working state machine may hold the
+	// speculative result of the very block that is being checked, and a block may lower the limit below its own size
+	sm, err := c.FSM.TimeMachine(0)
+	if err != nil {
+		return 0
+	}
+	if sm != c.FSM {
+		defer sm.Discard()
+	}
+	params, _ := sm.GetParamsCons()
 	// if the parameters are empty
 	if params == nil {
 		// return 0 as the 'max'
